@@ -936,16 +936,15 @@ func c07CheckChunk(ctx *core.Ctx, b *c07Batch, cs *c07Case, f *parquet.File, rgi
 		for i, v := range all {
 			ts[i] = fmt.Sprint(v.U)
 		}
-		ctx.Hist("files.l2", "compared")
-		c07BoolL2(ctx, b, fmt.Sprintf("bloom.file boolean %d %s", nb, strings.Join(ts, ",")),
-			fmt.Sprintf("bloom.file booleanfixed %d %s", nb, strings.Join(ts, ",")), "ok "+core.Hex(raw), "file-filter-bytes-vs-model-boolean", where())
-		return
+		req = fmt.Sprintf("bloom.file boolean %d %s", nb, strings.Join(ts, ","))
 	} else {
 		req = fmt.Sprintf("bloom.file %s %d %s", col.modelKind(), nb, strings.Join(toks, ","))
 	}
 	ctx.Hist("files.l2", "compared")
 	got := "ok " + core.Hex(raw)
 	d := where()
+	c07ProbeL2(ctx, b, cs, rgi, ci, col, bf, raw, vals, where)
+	c07StrategyL2(ctx, b, cs, f, rgi, ci, leaf, col, cc, raw, where)
 	b.add(req, func(resp string) {
 		if resp == got {
 			return
@@ -958,6 +957,230 @@ func c07CheckChunk(ctx *core.Ctx, b *c07Batch, cs *c07Case, f *parquet.File, rgi
 		}
 		d["request"], d["go"], d["lean"] = req, got, resp
 		ctx.Fail("L2", key, "filter bytes in the file differ from the model's filter of the same values and size", d)
+	})
+}
+
+// c07ProbeL2: the reader's answers (FileBloomFilter.Check: section / lazily decompressed gzip, block
+// count from the decompressed length) vs the model's CheckSplitBlock on the filter bytes (gunzipped
+// here with compress/gzip), on probes that were mostly NOT written.
+func c07ProbeL2(ctx *core.Ctx, b *c07Batch, cs *c07Case, rgi, ci int, col c07Col, bf parquet.BloomFilter, raw []byte, vals []c07Val, where func() map[string]any) {
+	if len(raw) > 8192 {
+		return
+	}
+	r := ctx.Rand(fmt.Sprintf("files/%d/probe/%d/%d", cs.Index, rgi, ci))
+	const np = 6
+	hashes := make([]uint64, np)
+	gotp := make([]string, np)
+	toks := make([]string, np)
+	for i := 0; i < np; i++ {
+		var v c07Val
+		if i == 0 && len(vals) > 0 {
+			v = vals[r.Intn(len(vals))]
+		} else {
+			v = c07Fresh(r, col)
+		}
+		pv := col.value(v)
+		ok, err := bf.Check(pv)
+		if err != nil {
+			ctx.Fail("L2", "probe-check-error", "BloomFilter.Check returns an error: "+err.Error(), where())
+			return
+		}
+		hashes[i] = parquet.VerifBloomValueHash(pv)
+		toks[i] = col.token(v)
+		gotp[i] = "0"
+		if ok {
+			gotp[i] = "1"
+		}
+	}
+	ctx.Hist("files.l2", "probes")
+	req := fmt.Sprintf("bloom.checks %s %s", core.Hex(raw), c07U64s(hashes))
+	b.add(req, func(resp string) {
+		if resp != "ok "+strings.Join(gotp, ",") {
+			d := where()
+			d["request"], d["probes"], d["go"], d["lean"] = req, toks, strings.Join(gotp, ","), resp
+			key := "file-filter-check-vs-model"
+			if cs.Opts.BloomComp == "gzip" {
+				key = "file-gzip-filter-check-vs-model"
+			}
+			ctx.Fail("L2", key, "FileBloomFilter.Check differs from the model's CheckSplitBlock on the (decompressed) filter bytes", d)
+		}
+	})
+}
+
+func c07ValueToken(col c07Col, v parquet.Value) string {
+	switch col.phys() {
+	case "boolean":
+		if v.Boolean() {
+			return "1"
+		}
+		return "0"
+	case "int32":
+		return fmt.Sprint(uint32(v.Int32()))
+	case "int64":
+		return fmt.Sprint(uint64(v.Int64()))
+	case "float":
+		return fmt.Sprint(math.Float32bits(v.Float()))
+	case "double":
+		return fmt.Sprint(math.Float64bits(v.Double()))
+	case "int96":
+		i := v.Int96()
+		var raw []byte
+		for _, w := range i {
+			raw = binary.LittleEndian.AppendUint32(raw, w)
+		}
+		return c07BytesTok(raw)
+	default:
+		return c07BytesTok(v.ByteArray())
+	}
+}
+
+// c07StrategyL2: the filter build strategy of the column writer (Lean `flushFilter`: incremental /
+// from the dictionary / dictionary + PLAIN pages after a fallback / re-reading) vs the file. The
+// chunk is described to the model as it is stored: pages (dictionary-indexed or not) with their
+// values, the dictionary, whether the writer fell back, NumValues; `presized` is known for the
+// write paths that never pre-size and for WriteRowGroup(buffer) without row-group splitting.
+func c07StrategyL2(ctx *core.Ctx, b *c07Batch, cs *c07Case, f *parquet.File, rgi, ci, leaf int, col c07Col, cc parquet.ColumnChunk, raw []byte, where func() map[string]any) {
+	md := f.Metadata()
+	if rgi >= len(md.RowGroups) || leaf >= len(md.RowGroups[rgi].Columns) {
+		return
+	}
+	meta := md.RowGroups[rgi].Columns[leaf].MetaData
+	presized := 0
+	switch cs.Path {
+	case "rows", "generic", "any", "colwriters", "copyrows":
+	case "buffer":
+		if cs.Opts.MaxRows != 0 {
+			ctx.Hist("files.strategy", "skipped-presize-unknown")
+			return
+		}
+		presized = parquet.SplitBlockFilter(col.Bits, col.Name).Size(meta.NumValues)
+	default:
+		ctx.Hist("files.strategy", "skipped-presize-unknown")
+		return
+	}
+	narrow := map[string]bool{"boolean": true, "int32": true, "int64": true, "float": true, "double": true}[col.phys()]
+	if meta.NumValues > 600 && !(narrow && meta.NumValues <= 3000) {
+		ctx.Hist("files.strategy", "skipped-large")
+		return
+	}
+	var pageToks []string
+	var dict parquet.Dictionary
+	indexed, plain := 0, 0
+	err := func() (err error) {
+		defer func() {
+			if p := recover(); p != nil {
+				err = fmt.Errorf("panic: %v", p)
+			}
+		}()
+		pages := cc.Pages()
+		defer pages.Close()
+		for {
+			p, err := pages.ReadPage()
+			if err == io.EOF {
+				return nil
+			}
+			if err != nil {
+				return err
+			}
+			tag := "p:"
+			if d := p.Dictionary(); d != nil {
+				tag, dict = "i:", d
+				indexed++
+			} else {
+				plain++
+			}
+			var toks []string
+			vr := p.Values()
+			buf := make([]parquet.Value, 256)
+			for {
+				n, err := vr.ReadValues(buf)
+				for _, v := range buf[:n] {
+					if !v.IsNull() {
+						toks = append(toks, c07ValueToken(col, v))
+					}
+				}
+				if err != nil {
+					break
+				}
+			}
+			if len(toks) == 0 {
+				pageToks = append(pageToks, tag+"-")
+			} else {
+				pageToks = append(pageToks, tag+strings.Join(toks, ","))
+			}
+			parquet.Release(p)
+		}
+	}()
+	if err != nil {
+		ctx.Hist("files.strategy", "skipped-pages-unreadable")
+		return
+	}
+	if col.phys() == "boolean" && (col.Rep != 0 || len(pageToks) != 1) {
+		ctx.Hist("files.strategy", "skipped-boolean-multi-page")
+		return
+	}
+	dictTok := "n"
+	if dict != nil {
+		var toks []string
+		for i := 0; i < dict.Len(); i++ {
+			toks = append(toks, c07ValueToken(col, dict.Index(int32(i))))
+		}
+		dictTok = "d:-"
+		if len(toks) > 0 {
+			dictTok = "d:" + strings.Join(toks, ",")
+		}
+	} else if meta.DictionaryPageOffset > 0 {
+		ctx.Hist("files.strategy", "skipped-dictionary-not-visible")
+		return
+	}
+	sw := 0
+	if dict != nil && plain > 0 {
+		sw = 1
+	}
+	pagesTok := "-"
+	if len(pageToks) > 0 {
+		pagesTok = strings.Join(pageToks, ";")
+	}
+	strategy := "reread"
+	switch {
+	case dict != nil && sw == 0:
+		strategy = "dictionary"
+	case dict != nil && presized > 0:
+		strategy = "fallback-presized"
+	case dict != nil:
+		strategy = "fallback-reread"
+	case presized > 0:
+		strategy = "incremental"
+	}
+	ctx.Hist("files.strategy", strategy)
+	mk := func(sw int) string {
+		return fmt.Sprintf("bloom.flush %s %d %d %d %d %s %s", col.modelKind(), col.Bits, presized, meta.NumValues, sw, dictTok, pagesTok)
+	}
+	req := mk(sw)
+	got := fmt.Sprintf("ok %d %s", len(raw), core.Hex(raw))
+	// `hasSwitchedToPlain` is not visible in the file when the row group ended right after the page on
+	// which the dictionary limit was hit (every page is still dictionary-indexed): with a configured
+	// DictionaryMaxBytes both states are possible, the file must match one of them.
+	ambiguous := dict != nil && plain == 0 && cs.Opts.DictMax > 0
+	first := ""
+	if ambiguous {
+		b.add(mk(1), func(resp string) { first = resp })
+	}
+	b.add(req, func(resp string) {
+		if resp == got {
+			return
+		}
+		if ambiguous && first == got {
+			ctx.Hist("files.strategy", "fallback-flag-set-no-plain-page")
+			return
+		}
+		d := where()
+		d["request"], d["go"], d["lean"], d["strategy"] = req, got, resp, strategy
+		key := "strategy-" + strategy + "-vs-mirror"
+		if !strings.HasPrefix(resp, fmt.Sprintf("ok %d ", len(raw))) {
+			key = "strategy-" + strategy + "-size-vs-mirror"
+		}
+		ctx.Fail("L2", key, "filter (size, bytes) in the file differs from the model of flushFilterPages for this chunk", d)
 	})
 }
 
@@ -1099,7 +1322,7 @@ func RunC07Files(ctx *core.Ctx) {
 		}
 		return
 	}
-	total := ctx.Scale(8000, 160000)
+	total := ctx.Scale(6000, 120000)
 	workers := 14
 	jobs := make(chan int, total)
 	for i := 0; i < total; i++ {
